@@ -2,6 +2,7 @@
 package c26
 
 import (
+	"verifharness/stubs"
 	"verifharness/sym"
 
 	"github.com/blinklabs-io/gouroboros/ledger/allegra"
@@ -15,8 +16,26 @@ import (
 )
 
 var Registry = map[string]func(){
-	"Shelley":  Shelley,
-	"Interval": Interval,
+	"Shelley":    Shelley,
+	"Interval":   Interval,
+	"InRuleList": InRuleList,
+}
+
+// InRuleList: the interval rule executed above is a member of the era's rule list, so that
+// "validation accepts" implies it accepted.
+func InRuleList() {
+	lists := [][]common.UtxoValidationRuleFunc{shelley.UtxoValidationRules, allegra.UtxoValidationRules, mary.UtxoValidationRules,
+		alonzo.UtxoValidationRules, babbage.UtxoValidationRules, conway.UtxoValidationRules, dijkstra.UtxoValidationRules}
+	era := sym.Param("era")
+	sym.Reach("decided")
+	if era == 0 {
+		sym.Assert(stubs.InList(lists[0], shelley.UtxoValidateTimeToLive), "time-to-live rule is in Shelley's rule list")
+		return
+	}
+	_, rules := eraTx(era, 0, 0)
+	for _, r := range rules {
+		sym.Assert(stubs.InList(lists[era], r), "validity interval rule is in the era's rule list")
+	}
 }
 
 type rule = func(common.Transaction, uint64, common.LedgerState, common.ProtocolParameters) error
